@@ -10,7 +10,7 @@ class WC13(WeaverUnit):
 
 class C13(Property):
     id = "C13"
-    gen_targets = ["Funfit"]
+    gen_targets = ["Funfit", "ProcessGlue"]
 
     def units(self, tier):
         return [InterpUnit(), InterpOracleUnit(), WC13(("C13",), ops=['interpolate','interpolate','shift_x','scale_y','append','repeat'], max_len=6, queries=False)]
